@@ -879,6 +879,27 @@ pub fn set_docstore_blocksize(n: usize) {
     DOCSTORE_BLOCKSIZE.with(|c| c.set(n));
 }
 
+thread_local! {
+    /// (compress on the indexing thread instead of the dedicated compressor thread,
+    ///  compressor: 0 = default (lz4), 1 = none, 2 = zstd) for indexes created on this thread
+    static DOCSTORE_VARIANT: std::cell::Cell<(bool, u8)> = const { std::cell::Cell::new((false, 0)) };
+}
+
+/// Doc store variant of the indexes `Exec::create` makes on this thread from now on; returns a
+/// short name for evidence.
+pub fn set_docstore_variant(same_thread: bool, compressor: u8) -> String {
+    DOCSTORE_VARIANT.with(|c| c.set((same_thread, compressor)));
+    format!(
+        "{}+{}",
+        if same_thread { "same-thread" } else { "compressor-thread" },
+        match compressor {
+            1 => "none",
+            2 => "zstd",
+            _ => "lz4",
+        }
+    )
+}
+
 pub fn index_settings(cfg: &ExecCfg) -> IndexSettings {
     let mut settings = IndexSettings {
         sort_by_field: cfg.sort.as_ref().map(|(f, o)| IndexSortByField {
@@ -890,6 +911,15 @@ pub fn index_settings(cfg: &ExecCfg) -> IndexSettings {
     let bs = DOCSTORE_BLOCKSIZE.with(|c| c.get());
     if bs > 0 {
         settings.docstore_blocksize = bs;
+    }
+    let (same_thread, compressor) = DOCSTORE_VARIANT.with(|c| c.get());
+    if same_thread {
+        settings.docstore_compress_dedicated_thread = false;
+    }
+    match compressor {
+        1 => settings.docstore_compression = tantivy::store::Compressor::None,
+        2 => settings.docstore_compression = tantivy::store::Compressor::Zstd(tantivy::store::ZstdCompressor::default()),
+        _ => {}
     }
     settings
 }
